@@ -59,8 +59,16 @@ func checkC14(c *Ctx) error {
 		o.HostileAlias = i%4 != 0
 		o.Scopes = false
 		o.NonFinite = false
+		// every fourth configuration also refers to the packages the template imports for itself (context, errors, fmt, os,
+		// reflect, strconv, the runtime's container): one import each, whoever needs it (the behaviour of those services is not
+		// modelled; import block and compilation are what is judged there)
+		o.StdPkgs = i%4 == 2
 		conf := gen.Behaviour(r, o)
-		units = append(units, &probe.Unit{ID: idOf(i), Cfg: conf, Files: []probe.File{{Name: "gontainer.yaml", Content: conf.YAML()}}, Ops: StdOps(conf, r, false)})
+		ops := StdOps(conf, r, false)
+		if o.StdPkgs {
+			ops = []probe.Op{{Op: "new"}, {Op: "circular"}}
+		}
+		units = append(units, &probe.Unit{ID: idOf(i), Cfg: conf, Files: []probe.File{{Name: "gontainer.yaml", Content: conf.YAML()}}, Ops: ops})
 		if i%3 == 0 {
 			// the stub of the same configuration uses far fewer packages: its import block must list exactly those
 			stubs = append(stubs, &probe.Unit{ID: idOf(i), Cfg: conf, Files: []probe.File{{Name: "gontainer.yaml", Content: conf.YAML()}}, Stub: true})
